@@ -1,10 +1,12 @@
 (* C09 runner: decodes a case (cls cap bigfuel (bytes...)), runs the reader model of class [cls] on the bytes
-     - as the code is now (cfg_fixed), with the fuel |f|+1 of the theorems,
-     - as the code is now, with the large fuel given in the case (only when the first run ended in Hang),
-     - (third slot: kept for a future candidate fix; currently the first outcome again),
-   and encodes the three outcomes. Executable only. *)
+     - as the code is now (cfg_fixed, p_all: every fix of fixes/C09_1 .. C09_17 is in /repo), fuel |f|+1,
+     - the same with the large fuel given in the case (only when the first run ended in Hang),
+     - as the code was before the fixes (regression: the old failure is recognised when a fix is reverted),
+   and encodes the three outcomes. The CSV reader has a fourth outcome: the reader with the proposed fixes/C09_18.
+   Classes 12, 17 .. 20 (MeshETurbo, AnamEmpirical, AnamDiscreteDD / IR, DbLine) are the models of the readers WITH the guards of the
+   proposed fixes/C09_19 .. C09_22: the check compares them only when the implementation shows the guards. Executable only. *)
 From Coq Require Import List ZArith QArith Bool.
-From Gst Require Import lib.Sx C09.Model C09.Readers C09.Readers2 C09.Spec.
+From Gst Require Import lib.Sx C09.Model C09.Readers C09.Readers2 C09.Readers3 C09.Spec C09.Readers4.
 Import ListNotations.
 Local Open Scope Z_scope.
 
@@ -28,6 +30,11 @@ Definition ofNM (n : neighmoving) : sx := L [I (nm_ndim n); I (nth 1 (nm_ints n)
 Definition ofVario (v : vario) : sx :=
   L [I (va_nvar v); I (zlen (va_dirs v)); I (va_calcul v); ofZs (map vd_npas (va_dirs v)); ofZs (map vd_size (va_dirs v))].
 Definition ofGM (g : gmodel) : sx := L [I (gm_ndim g); I (gm_nvar g); I (gm_ncova g); I (gm_nbfl g)].
+Definition ofAnamD (a : anamd) : list sx := [I (ad_ncut a); I (ad_nelem a); L (map ofNum (ad_zcut a)); L (map ofNum (ad_stats a))].
+Definition ofAnamDD (a : anamdd) : sx := L (ofAnamD (dd_base a) ++ [ofNum (dd_s a); ofNum (dd_mu a)]).
+Definition ofAnamIR (a : anamd * num) : sx := L (ofAnamD (fst a) ++ [ofNum (snd a)]).
+Definition ofAnamE (a : aname) : sx := L [I (ae_ndisc a); ofNum (ae_sigma2e a); L (map ofNum (ae_z a)); L (map ofNum (ae_y a))].
+Definition ofDbLine (x : dbline) : sx := L [L (map ofZs (dl_adds x)); ofDb (dl_db x)].
 Definition ofOutcome {A} (dump : A -> sx) (wf : A -> bool) (o : outcome A) : sx :=
   match o with
   | Failed g => L [I 0; L []; I g]
@@ -38,12 +45,31 @@ Definition ofOutcome {A} (dump : A -> sx) (wf : A -> bool) (o : outcome A) : sx 
   end.
 Definition is_hang {A} (o : outcome A) : bool := match o with Crashed (Hang _) => true | _ => false end.
 
-Definition run3 {A} (dump : A -> sx) (wf : A -> bool) (ld : env -> list Z -> outcome A) (cap : Z) (big : nat) (f : list Z) : sx :=
+(* [first] = true for the classes whose fixes are the flags of cfg (C09_1 .. C09_5), false for those of e_prop (C09_11 ..) *)
+Definition run3 {A} (first : bool) (dump : A -> sx) (wf : A -> bool) (ld : env -> list Z -> outcome A) (cap : Z) (big : nat) (f : list Z) : sx :=
   let n := S (length f) in
-  let o1 := ld (mkEnv cfg_fixed cap n (Z.of_nat (length f)) p_none) f in
-  let o2 := if is_hang o1 then ld (mkEnv cfg_fixed cap big (Z.of_nat (length f)) p_none) f else o1 in
-  let o3 := ld (mkEnv cfg_fixed cap n (Z.of_nat (length f)) p_all) f in
+  let fl := Z.of_nat (length f) in
+  let o1 := ld (mkEnv cfg_fixed cap n fl p_all) f in
+  let o2 := if is_hang o1 then ld (mkEnv cfg_fixed cap big fl p_all) f else o1 in
+  (* the reader before the fixes: when the implementation behaves like this one, a fix has been reverted *)
+  let o3 := if first then ld (mkEnv cfg_asis cap n fl p_none) f else ld (mkEnv cfg_fixed cap n fl p_none) f in
   L [ofOutcome dump wf o1; ofOutcome dump wf o2; ofOutcome dump wf o3].
+
+Definition csv_variant (v : Z) : csvfmt :=
+  mkCsv (negb (v =? 1)) (if v =? 2 then 1 else 0) (if v =? 3 then 59 else 44) (if v =? 3 then 44 else 46)
+        (if v =? 4 then 2 else -1) (if v =? 4 then 3 else -1) (v =? 2).
+Definition ofCsv (o : csvout) : sx :=
+  match o with
+  | CsvFail => L [I 0; L []; I 0]
+  | CsvOk d => L [I 1; ofDb d; I 0; ofB (wf_db_b d)]
+  | CsvThrow => L [I 2; I 4; I 100]
+  | CsvAlloc => L [I 2; I 1; I 101]
+  | CsvHang => L [I 4; I 100]
+  end.
+Definition run_csv (v cap : Z) (f : list Z) : sx :=
+  let E := mkEnv cfg_fixed cap (S (length f)) (Z.of_nat (length f)) p_all in
+  let o1 := ofCsv (db_from_csv E true false (csv_variant v) f) in
+  L [o1; o1; ofCsv (db_from_csv E false false (csv_variant v) f); ofCsv (db_from_csv E true true (csv_variant v) f)].
 
 Definition run (c : sx) : sx :=
   match c with
@@ -52,21 +78,29 @@ Definition run (c : sx) : sx :=
       | None => sx_error 1
       | Some f =>
           let b := Z.to_nat big in
-          if cls =? 1 then run3 ofDb wf_db_b load_Db cap b f
-          else if cls =? 2 then run3 ofDbGrid wf_dbgrid_b load_DbGrid cap b f
-          else if cls =? 3 then run3 ofTable wf_table_b load_Table cap b f
-          else if cls =? 4 then run3 (fun l => L (map ofPE l)) wf_polygons_b load_Polygons cap b f
-          else if cls =? 11 then run3 ofPL wf_polyline_b load_PolyLine2D cap b f
-          else if cls =? 14 then run3 (fun l => L (map ofPL l)) wf_faults_b load_Faults cap b f
-          else if cls =? 21 then run3 ofPE wf_polyelem_b load_PolyElem cap b f
-          else if cls =? 13 then run3 ofRule wf_rule_b load_Rule cap b f
-          else if cls =? 10 then run3 ofAnamH (fun _ => true) load_AnamHermite cap b f
-          else if cls =? 8 then run3 (fun n => L [I n]) (fun _ => true) load_NeighUnique cap b f
-          else if cls =? 9 then run3 (fun p => L [I (fst p); ofNum (snd p)]) (fun _ => true) load_NeighBench cap b f
-          else if cls =? 16 then run3 (fun p => L [I (fst p); I (snd p)]) (fun _ => true) load_NeighCell cap b f
-          else if cls =? 7 then run3 ofNM (fun _ => true) load_NeighMoving cap b f
-          else if cls =? 5 then run3 ofVario wf_vario_b load_Vario cap b f
-          else if cls =? 6 then run3 ofGM (fun _ => true) (load_Model (fun _ => true) (fun _ => true)) cap b f
+          if cls =? 1 then run3 true ofDb wf_db_b load_Db cap b f
+          else if cls =? 2 then run3 true ofDbGrid wf_dbgrid_b load_DbGrid cap b f
+          else if cls =? 3 then run3 true ofTable wf_table_b load_Table cap b f
+          else if cls =? 4 then run3 true (fun l => L (map ofPE l)) wf_polygons_b load_Polygons cap b f
+          else if cls =? 11 then run3 true ofPL wf_polyline_b load_PolyLine2D cap b f
+          else if cls =? 14 then run3 true (fun l => L (map ofPL l)) wf_faults_b load_Faults cap b f
+          else if cls =? 21 then run3 true ofPE wf_polyelem_b load_PolyElem cap b f
+          else if cls =? 13 then run3 false ofRule wf_rule_b load_Rule cap b f
+          else if cls =? 10 then run3 false ofAnamH (fun _ => true) load_AnamHermite cap b f
+          else if cls =? 8 then run3 false (fun n => L [I n]) (fun _ => true) load_NeighUnique cap b f
+          else if cls =? 9 then run3 false (fun p => L [I (fst p); ofNum (snd p)]) (fun _ => true) load_NeighBench cap b f
+          else if cls =? 16 then run3 false (fun p => L [I (fst p); I (snd p)]) (fun _ => true) load_NeighCell cap b f
+          else if cls =? 15 then run3 false (fun p => L [I (fst (fst p)); I (snd (fst p)); I (zlen (snd p))]) (fun _ => true) load_NeighImage cap b f
+          else if cls =? 7 then run3 false ofNM (fun _ => true) load_NeighMoving cap b f
+          else if cls =? 5 then run3 false ofVario wf_vario_b load_Vario cap b f
+          else if cls =? 6 then run3 false ofGM (fun _ => true) (load_Model (fun _ => true) (fun _ => true)) cap b f
+          else if cls =? 12 then run3 false (fun t => L [I (mt_ndim t); ofZs (mt_nx t); I (match mt_mesh t with Some n => n | None => -1 end);
+                                                          I (match mt_grid t with Some n => n | None => -1 end)]) (fun _ => true) load_MeshETurbo cap b f
+          else if cls =? 17 then run3 false ofAnamE (fun _ => true) load_AnamEmpirical cap b f
+          else if cls =? 18 then run3 false ofAnamDD (fun _ => true) load_AnamDD cap b f
+          else if cls =? 19 then run3 false ofAnamIR (fun _ => true) load_AnamIR cap b f
+          else if cls =? 20 then run3 false ofDbLine (fun x => wf_db_b (dl_db x)) load_DbLine cap b f
+          else if (30 <=? cls) && (cls <=? 34) then run_csv (cls - 30) cap f
           else sx_error 2
       end
   | _ => sx_error 0
